@@ -1,6 +1,7 @@
 import CC.Lemmas.Prims
 import CC.Lemmas.Comb
 import CC.Lemmas.Refresh
+import CC.Lemmas.Contig
 /-! # C11 — post-quantum protection is applied exactly where the policy asks for it -/
 
 namespace CC.Props.C11
@@ -71,5 +72,23 @@ theorem encaps_hybrid_iff_all (mpk : Mpk) (targets : List Right) (n : Rng) (s : 
 bound into the tag: see `CC.Props.C07`) -/
 theorem classic_secret_opens_no_hybrid (s t : Sk) (h : s.hyb = false) : opens true s t = false := by
   simp [opens, h]
+
+/-- **Flavours are coherent over every history.** In any reachable world, for every right of the
+master key all of whose attributes still exist, the newest secret is hybridized exactly when one of
+those attributes was declared hybridized (identifier by identifier: hints never change, whatever
+edits, updates, rekeys, prunes happened). -/
+theorem flavour_follows_hints (w : World) (hw : Reachable w) (r : Right) (c : List (Bool × Sk))
+    (hl : w.msk.secrets.lookup r = some c) (ids : List Nat) (hr : r = Right.fromPoint ids)
+    (hlive : ∀ i ∈ ids, w.msk.structure_.live i) (v : Bool × Sk) (hv : c.head? = some v) :
+    v.2.hyb = ids.any w.msk.structure_.hybId :=
+  (reachable_coh w hw).hint r c hl ids hr hlive v hv
+
+/-- … so `update_msk` never strips the post-quantum part of a secret (the `drop_hybridization`
+branch is a no-op in every reachable world): the secrets of surviving rights are untouched -/
+theorem update_never_strips (w : World) (hw : Reachable w) (k : Right) (c : List (Bool × Sk))
+    (hl : w.msk.secrets.lookup k = some c) :
+    (w.step .update).msk.secrets.lookup k = none ∨
+    ∃ c', (w.step .update).msk.secrets.lookup k = some c' ∧ c'.map (·.2) = c.map (·.2) :=
+  update_keeps_secrets w hw k c hl
 
 end CC.Props.C11
